@@ -1,9 +1,128 @@
 import OdcGeo.Model.C09
 namespace OdcGeo.C09.Drv
-open OdcGeo OdcGeo.IO
+open OdcGeo OdcGeo.IO OdcGeo.C09
+
+/-- `N` or `id,T|F` -/
+def parseCrs? (s : String) : Option (Option Crs) :=
+  if s = "N" then some none
+  else match s.splitOn "," with
+    | [i, g] => do
+      let i ← parseNat? i; let g ← parseBool? g
+      pure (some ⟨i, g⟩)
+    | _ => none
+
+def fmtCrs : Option Crs → String
+  | none => "N"
+  | some c => s!"{c.id},{fmtBool c.geographic}"
+
+def parseGcp? (s : String) : Option Gcp :=
+  match (s.splitOn ";").mapM parseRat? with
+  | some [c, r, x, y] => some ⟨c, r, x, y⟩
+  | _ => none
+
+def fmtGcp (p : Gcp) : String := ";".intercalate ([p.col, p.row, p.x, p.y].map fmtRat)
+
+/-- `L:ny:nx:aff:crs` or `G:ny:nx:aff:crs:p1|p2|…` -/
+def parseSrc? (s : String) : Option Src :=
+  match s.splitOn ":" with
+  | ["L", ny, nx, a, c] => do
+    let ny ← parseNat? ny; let nx ← parseNat? nx; let a ← parseAff? a; let c ← parseCrs? c
+    pure (.lin ⟨ny, nx, a, c⟩)
+  | ["G", ny, nx, a, c, pts] => do
+    let ny ← parseNat? ny; let nx ← parseNat? nx; let a ← parseAff? a; let c ← parseCrs? c
+    let pts ← (pts.splitOn "|").mapM parseGcp?
+    pure (.gcp ⟨ny, nx, pts, a, c⟩)
+  | _ => none
+
+def parseGeoBox? (s : String) : Option GeoBox :=
+  match parseSrc? s with
+  | some (.lin g) => some g
+  | _ => none
+
+/-- `s:dim:start:stop:step` | `i:dim:k` | `a` | `t` | `p` -/
+def parseOp? (s : String) : Option Op :=
+  match s.splitOn ":" with
+  | ["a"] => some .arith
+  | ["t"] => some .astype
+  | ["p"] => some .pickle
+  | ["i", d, k] => (parseInt? k).map (fun k => .isel d (.int k))
+  | ["s", d, a, b, c] => do
+    let a ← parseOpt? parseInt? a; let b ← parseOpt? parseInt? b; let c ← parseOpt? parseInt? c
+    pure (.isel d (.slc a b c))
+  | _ => none
+
+def fmtRecovered : Recovered → String
+  | .nothing => "none"
+  | .lin g => s!"L {g.ny} {g.nx} {fmtAff g.A} {fmtCrs g.crs}"
+  | .gcp g => s!"G {g.ny} {g.nx} {fmtAff g.A} {fmtCrs g.crs} " ++ "|".intercalate (g.pts.map fmtGcp)
+
+def labelsOf (a : XArr) (d : String) : String :=
+  match a.coords.lookup d with
+  | some (.axis v _ _) => fmtList fmtRat v
+  | _ => "-"
+
+def fmtArr (a : XArr) : String :=
+  let lab := match spatialDims a.dims with
+    | some (yd, xd) => s!"{labelsOf a yd} {labelsOf a xd}"
+    | none => "- -"
+  s!"{fmtRes fmtRecovered (recover a)} {fmtList id a.dims} {lab} {fmtOpt id a.gridMapping}"
+
+def sortStr (xs : List String) : List String := (xs.toArray.qsort (· < ·)).toList
+
+def fmtOut (a : XArr) : String :=
+  s!"{fmtRes fmtRecovered (recover a)} {fmtList id a.dims} {fmtList id (sortStr a.attrs)} " ++
+  s!"{fmtOpt id a.gridMapping} {fmtList id (sortStr (a.coords.map (·.1)))}"
+
+def fmtVar (nm : String) (v : XArr) : String :=
+  s!"{nm}={fmtRes fmtRecovered (recover v)} {fmtList id v.dims} {fmtList id (sortStr v.attrs)} " ++
+  s!"{fmtOpt id v.gridMapping}"
+
+def fmtDs (r : List String × List (String × XArr)) : String :=
+  let v := dsView r.1 r.2
+  s!"{fmtList id (sortStr r.1)} {fmtRes fmtRecovered (recover v)} " ++
+  s!"{fmtList id (sortStr (v.coords.map (·.1)))} " ++
+  " ".intercalate (r.2.map fun nv => fmtVar nv.1 nv.2)
+
+def build (src nt nb ops attrs : String) : Option (Res XArr) := do
+  let src ← parseSrc? src
+  let nt ← parseOpt? parseNat? nt; let nb ← parseOpt? parseNat? nb
+  let ops ← parseList? parseOp? ops
+  let attrs ← parseListRaw? attrs
+  pure (match wrap src nt nb "spatial_ref" attrs with
+    | .error e => .error e
+    | .ok a => applyOps a ops)
+
+/-- Dataset `{a: arr, b: arr * 2, c: non-geo variable (if extra)}` as the harness builds it -/
+def mkDs (a : XArr) (extra : Bool) : List (String × XArr) :=
+  let b : XArr := { a with gridMapping := none }
+  let c : XArr := ⟨["t"], a.coords.filter (fun kc => match kc.2 with
+        | .crs _ => true | .scalar => true | _ => false) ++ [("t", .other 3)], none, []⟩
+  [("a", a), ("b", b)] ++ (if extra then [("c", c)] else [])
 
 def run (args : List String) : Option String :=
   match args with
+  | ["sel", n, a, b, c] => do
+    let n ← parseNat? n
+    let a ← parseOpt? parseInt? a; let b ← parseOpt? parseInt? b; let c ← parseInt? c
+    pure (fmtList fmtInt (PySliceStep.sel n a b c))
+  | ["rt", src, nt, nb, ops] => do
+    let r ← build src nt nb ops "[]"
+    pure (fmtRes fmtArr r)
+  | ["repr", src, nt, nb, ops, attrs, dst, nodata] => do
+    let r ← build src nt nb ops attrs
+    let dst ← parseGeoBox? dst
+    let nd ← parseBool? nodata
+    pure (fmtRes fmtOut (match r with | .error e => .error e | .ok a => assemble a dst nd))
+  | ["reprds", src, nt, nb, ops, attrs, dsattrs, extra, dst] => do
+    let r ← build src nt nb ops attrs
+    let dst ← parseGeoBox? dst
+    let dsattrs ← parseListRaw? dsattrs
+    let extra ← parseBool? extra
+    let res : Res (List String × List (String × XArr)) :=
+      match r with
+      | .error e => .error e
+      | .ok a => assembleDs dsattrs (mkDs a extra) dst
+    pure (fmtRes fmtDs res)
   | _ => none
 
 end OdcGeo.C09.Drv
